@@ -125,6 +125,7 @@ def obst_step(kind):
                     _ = p.occupancy_set
             elif k == "o.tr":
                 o.translate_rotate(np.array(op[1]), op[2])
+                hist = [snap.rigid(h, op[1], float(op[2])) for h in hist]      # the previous states are moved with the obstacle (same frame)
             elif k == "p.tr":
                 if p is not None:
                     p.translate_rotate(np.array(op[1]), op[2])
@@ -197,7 +198,7 @@ def obst_queries(o):
 def obst_canon(o, model):
     snap.RECT_VERTICES = False
     p = o.prediction
-    return (json.dumps(snap.obstacle(o), sort_keys=True, default=str), p is not None and "occupancy_set" in p.__dict__, len(model["hist"]), model.get("tainted"))
+    return (json.dumps(snap.obstacle(o), sort_keys=True, default=str), p is not None and "_occupancy_set_cache" in p.__dict__, len(model["hist"]), model.get("tainted"))
 
 
 def obst_check(o, model, model2, op, obs, pre):
@@ -226,7 +227,7 @@ def obst_check(o, model, model2, op, obs, pre):
     if len(set(lens)) != 1:
         out.append((f"C11|obstacle|{op[0]}|history:unequal-lengths", f"{lens}"))
     got = [snap.state(s) for s in o.history]
-    if got != model2["hist"]:
+    if len(got) != len(model2["hist"]) or list(snap.diff(model2["hist"], got, tol_point=TOL, tol_real=0.0, angle_mod=True)):
         out.append((f"C11|obstacle|{op[0]}|history:states", f"history time steps {[g['attrs'].get('time_step') for g in got]} expected {[g['attrs'].get('time_step') for g in model2['hist']]}"))
     return out
 
@@ -558,7 +559,7 @@ def scen_queries(sc, fresh_obstacles=None):
 def scen_canon(sc, model):
     snap.RECT_VERTICES = False
     d = sc.obstacle_by_id(70)
-    return (json.dumps(snap.scenario(sc, meta=False), sort_keys=True, default=str), d is not None and d.prediction is not None and "occupancy_set" in d.prediction.__dict__)
+    return (json.dumps(snap.scenario(sc, meta=False), sort_keys=True, default=str), d is not None and d.prediction is not None and "_occupancy_set_cache" in d.prediction.__dict__)
 
 
 def scen_check(sc, model, model2, op, obs, pre):
